@@ -21,6 +21,7 @@ CONSTANTS Mode,        \* "revoked" | "honest"
           Defect,      \* "none"; a planted defect of the monitor (spec mutants: TLC must refute them)
           Features     \* "dup_hash": two pending HTLCs with one payment hash
                        \* "second": node Hub has a second unilaterally closed channel whose outputs mature meanwhile
+                       \* "few": at most one HTLC output on the commitment (keeps the quick instances with "second" small)
 
 VARIABLES stage,   \* "start" | "react" | "idle" | "fair" | "done"
           nextId, shape, blocks, reloads, unwinds, hist,
@@ -67,7 +68,7 @@ OtherOuts == IF "second" \in Features THEN {<<0, 1>>, <<0, 2>>} ELSE {}
 
 MCInit ==
   /\ OInit
-  /\ stage = "start" /\ nextId = 3 /\ shape \in SUBSET Menu /\ blocks = 0 /\ reloads = 0 /\ unwinds = 0
+  /\ stage = "start" /\ nextId = 3 /\ shape \in SUBSET Menu /\ ("few" \in Features => Cardinality(shape) <= 1) /\ blocks = 0 /\ reloads = 0 /\ unwinds = 0
   /\ hist = <<>>
   /\ hold \in (IF "second" \in Features THEN BOOLEAN ELSE {FALSE})
 
